@@ -108,20 +108,20 @@ Inductive subtree_at : tree -> N -> tree -> N -> Prop :=
     subtree_at c (off + byte_len (concat (map into_text pre))) n o ->
     subtree_at (Inner k cs a) off n o.
 
-Lemma cover_go_sound (coverf : tree -> N -> option (tree * N * lmode * option kind)) :
-  forall cs o r,
-    (fix go (cs : list tree) (o : N) : option (tree * N * lmode * option kind) :=
+Lemma cover_go_sound {R} (coverf : bool -> tree -> N -> option R) :
+  forall cs o ah r,
+    (fix go (cs : list tree) (o : N) (after_hash : bool) : option R :=
        match cs with
        | [] => None
-       | c :: rest => match coverf c o with Some r => Some r | None => go rest (o + byte_size c) end
-       end) cs o = Some r ->
-    exists pre c post, cs = pre ++ c :: post /\ coverf c (o + byte_len (concat (map into_text pre))) = Some r.
+       | c :: rest => match coverf after_hash c o with Some r => Some r | None => go rest (o + byte_size c) (kind_eqb (kind_of c) KHash) end
+       end) cs o ah = Some r ->
+    exists pre c post ah', cs = pre ++ c :: post /\ coverf ah' c (o + byte_len (concat (map into_text pre))) = Some r.
 Proof.
-  induction cs as [|c cs IH]; intros o r H; [discriminate|].
-  destruct (coverf c o) as [r'|] eqn:E.
-  - inversion H; subst. exists [], c, cs. cbn. rewrite N.add_0_r. auto.
-  - apply IH in H. destruct H as (pre & c' & post & -> & Hc).
-    exists (c :: pre), c', post. split; [reflexivity|].
+  induction cs as [|c cs IH]; intros o ah r H; [discriminate|].
+  destruct (coverf ah c o) as [r'|] eqn:E.
+  - inversion H; subst. exists [], c, cs, ah. cbn. rewrite N.add_0_r. auto.
+  - apply IH in H. destruct H as (pre & c' & post & ah' & -> & Hc).
+    exists (c :: pre), c', post, ah'. split; [reflexivity|].
     cbn [map concat]. rewrite byte_len_app. unfold byte_size in Hc.
     rewrite N.add_assoc. exact Hc.
 Qed.
@@ -137,11 +137,13 @@ Proof.
     apply N.leb_le in E1, E2. repeat split; try assumption. constructor.
   - cbn [cover] in H.
     match type of H with
-    | match ?g cs off with _ => _ end = _ => destruct (g cs off) as [r|] eqn:Eg
+    | match ?g cs off false with _ => _ end = _ => destruct (g cs off false) as [r|] eqn:Eg
     end.
     + inversion H; subst.
-      apply (cover_go_sound (fun c o => cover c o (mode_of_kind k m) (Some k) rs re)) in Eg.
-      destruct Eg as (pre & c & post & Hcs & Hc).
+      apply (cover_go_sound (fun ah c o =>
+               cover c o ((if ah && is_math_mode (mode_of_kind k (fst m)) then LCode else mode_of_kind k (fst m)), snd m || kind_eqb k KMath)
+                     (Some k) rs re)) in Eg.
+      destruct Eg as (pre & c & post & ah' & Hcs & Hc).
       assert (Hin : In c cs) by (rewrite Hcs; apply in_or_app; right; left; reflexivity).
       rewrite Forall_forall in IH. specialize (IH c Hin _ _ _ _ _ _ _ _ _ Hc).
       destruct IH as (H1 & H2 & H3 & H4). repeat split; try assumption.
@@ -236,30 +238,30 @@ Section FormatRange.
     let len := byte_len s in
     exists rs re node m p,
       trim_range s (N.min a len) (N.min b len) = Ok (rs, re) /\
-      cover t 0 LMarkup None rs (N.min re len) = Some (node, r1, m, p) /\
+      cover t 0 (LMarkup, false) None rs (N.min re len) = Some (node, r1, m, p) /\
       r2 = r1 + byte_size node /\ erroneous node = false /\ coverable node = true /\
       r1 <= rs /\ N.min re len <= r2 /\ subtree_at t 0 node r1.
   Proof.
     intros H s len. unfold format_range in H. fold s in H. fold len in H.
     destruct (trim_range s (N.min a len) (N.min b len)) as [[rs re]|] eqn:Et; [|discriminate].
-    destruct (cover t 0 LMarkup None rs (N.min re len)) as [[[[node off] m] p]|] eqn:Ec; [|discriminate].
+    destruct (cover t 0 (LMarkup, false) None rs (N.min re len)) as [[[[node off] [m bm]] p]|] eqn:Ec; [|discriminate].
     destruct (erroneous node) eqn:Ee; [discriminate|].
     match type of H with match run_m ?mm with _ => _ end = _ => destruct (run_m mm) as [[d cnt]|] end; [|discriminate].
     destruct (count_spaces_after_last_newline s off) as [k|]; [|discriminate].
     match type of H with match render ?w ?d with _ => _ end = _ => destruct (render w d) end; [|discriminate].
     inversion H; subst.
     destruct (cover_sound _ _ _ _ _ _ _ _ _ _ Ec) as (H1 & H2 & H3 & H4).
-    exists rs, re, node, m, p. repeat split; try assumption; reflexivity.
+    exists rs, re, node, (m, bm), p. repeat split; try assumption; reflexivity.
   Qed.
 
   (* (4) an erroneous covering node, or no covering node, is refused *)
   Theorem format_range_refuses cfg t a b rs re :
     trim_range (into_text t) (N.min a (byte_len (into_text t))) (N.min b (byte_len (into_text t))) = Ok (rs, re) ->
-    (cover t 0 LMarkup None rs (N.min re (byte_len (into_text t))) = None \/
-     exists node o m p, cover t 0 LMarkup None rs (N.min re (byte_len (into_text t))) = Some (node, o, m, p) /\ erroneous node = true) ->
+    (cover t 0 (LMarkup, false) None rs (N.min re (byte_len (into_text t))) = None \/
+     exists node o m p, cover t 0 (LMarkup, false) None rs (N.min re (byte_len (into_text t))) = Some (node, o, m, p) /\ erroneous node = true) ->
     format_range swidth cfg t a b = RErr.
   Proof.
     intros Ht Hc. unfold format_range. rewrite Ht.
-    destruct Hc as [->|(node & o & m & p & -> & He)]; [reflexivity|]. rewrite He. reflexivity.
+    destruct Hc as [->|(node & o & [m bm] & p & -> & He)]; [reflexivity|]. rewrite He. reflexivity.
   Qed.
 End FormatRange.
